@@ -116,6 +116,10 @@ def leaf_expectation(case, ctx, ln):
         return [('quote', 1), (k, 1 + lead)]
     if ctx == 'in-list-item':
         return [('list', 1), ('item', 1), ('para', 1), (k, 3 + lead)]
+    if ctx == 'in-quote-then-text':
+        return [('quote', 1), (k, 1 + lead), ('para', n + 1)]
+    if ctx == 'in-list-item-then-text':
+        return [('list', 1), ('item', 1), ('para', 1), (k, 3 + lead), ('para', n + 3)]
     raise KeyError(ctx)
 
 
